@@ -8,6 +8,10 @@
    (39 cuts), 3-5-way split at random points (1-step segments included) and split with EMPTY segments (cut at 0, cut at
    the end, repeated cut points: a call over zero time steps must return the states unchanged), every call starting from the state
    array the previous call returned (same model object + same array, or fresh object + copied array).
+   LONG runs (a counter / budget / run-length dependent quantity carried across one Run call shows only there): three
+   stiff Storage reservoirs of 1825 daily steps (> 1e6 accepted sub-steps in one call, measured on the extracted kernel)
+   and one 1000-step run of every other stateful model, whole vs split at the middle, at 1/3 + 2/3, at a 1-step
+   segment and with an empty segment.
    Outputs at every time step and final states must be BIT-IDENTICAL, except
      StorageRouting: within 2*massBalanceLimit = 2e-3 m3 per cut on storage (each of the two runs solves its
        step to |mass balance| < massBalanceLimit = 1e-3 m3, so two accepted solutions are at most 2e-3 m3 apart),
@@ -65,9 +69,9 @@ def cutsets(rng, n, nmulti):
     return cs
 
 
-def has_empty(cuts):
+def has_empty(cuts, n=None):
     """the cut set produces at least one segment of zero time steps"""
-    b = [0] + list(cuts) + [N]
+    b = [0] + list(cuts) + [N if n is None else n]
     return any(x == y for x, y in zip(b, b[1:]))
 
 
@@ -250,7 +254,7 @@ def evaluate(c, cases, cuts, lines, mlines, mcuts, impl, mod, stats, tag):
         for j, r in enumerate(ri[1:]):
             c.count((m, cs['params'], cs['states'], cs['inputs'], ks[j]), nontrivial=nt)
             st['split_runs'] += 1
-            if has_empty(ks[j]):
+            if has_empty(ks[j], len(cs['inputs'][0])):
                 st['split_runs_with_empty_segments'] = st.get('split_runs_with_empty_segments', 0) + 1
             d, cls = oracle_diff(cs, w, r, len(ks[j]))
             info = None
@@ -298,7 +302,7 @@ def evaluate(c, cases, cuts, lines, mlines, mcuts, impl, mod, stats, tag):
                 break
         if i % 37 == 0:
             c.sample({'model': m, 'params': cs['params'][:6], 'initial_states': cs['states'][:6],
-                      'inputs_head': [r[:4] for r in cs['inputs']], 'cut_sets': [ks[0], ks[N // 2], ks[-1]],
+                      'inputs_head': [r[:4] for r in cs['inputs']], 'cut_sets': [ks[0], ks[len(ks) // 2], ks[-1]],
                       'whole_outputs_head': [r[:4] for r in w[1]], 'whole_final_states': w[2][:6]})
     return finals
 
@@ -367,13 +371,39 @@ def main():
     nmulti = 6 if quick else 12
     stats = {}
 
-    def run_batch(cases, tag):
-        cuts = [cutsets(rng, N, nmulti) for _ in cases]
+    def long_cuts(cs):
+        n = len(cs['inputs'][0])
+        a = rng.randint(n // 2, n - 2)
+        b = rng.randint(1, n - 1)
+        return [[n // 2], [n // 3, 2 * n // 3], [a, a + 1], sorted([0, b, b])]
+
+
+    # the long stiff Storage runs are generated first: their (slow) run on the extracted kernel proceeds in the background
+    import threading, time as _time
+    lsteps = 1825 if quick else 2920
+    lcases = long_storage_cases(rng, lsteps)
+    lcuts = [long_cuts(cs) for cs in lcases]
+    llines = [split_line(cs, rng.choice(['same', 'fresh']), ks) for cs, ks in zip(lcases, lcuts)]
+    nmodel = 1 if quick else len(lcases)
+    kc = {}
+
+    def model_side():
+        t0 = _time.time()
+        kc['lines'] = run_lines(drv, ['STORAGE_KCOUNT ' + kline(cs).split(' ', 2)[2] for cs in lcases[:nmodel]],
+                                crash_token='MODELCRASH', timeout=3600)
+        kc['seconds'] = round(_time.time() - t0, 2)
+    th = threading.Thread(target=model_side)
+    th.start()
+
+
+    def run_batch(cases, tag, cutfn=None, st=None):
+        st = stats if st is None else st
+        cuts = [cutsets(rng, N, nmulti) if cutfn is None else cutfn(cs) for cs in cases]
         # model side: every cut set, except for Storage (the extracted adaptive sub-stepping is ~100x slower than Go):
         # the whole run, 5 two-way cuts, 2 multi-way splits and 4 cut sets with empty segments
         mcuts = []
         for cs, ks in zip(cases, cuts):
-            if cs['model'] == 'Storage' and quick:
+            if cs['model'] == 'Storage' and quick and cutfn is None:
                 two = [k for k in ks if len(k) == 1 and 0 < k[0] < N]
                 multi = [k for k in ks if len(k) > 1 and not has_empty(k)]
                 mcuts.append(rng.sample(two, 5) + multi[:2] + [k for k in ks if has_empty(k)][:4])
@@ -384,7 +414,7 @@ def main():
         mlines = [split_line(cs, md, ks) for cs, md, ks in zip(cases, modes, mcuts)]
         impl = run_filtered(owrun, lines, 'CRASH', env=GOENV)
         mod = run_filtered(drv, mlines, 'MODELCRASH')
-        return evaluate(c, cases, cuts, lines, mlines, mcuts, impl, mod, stats, tag)
+        return evaluate(c, cases, cuts, lines, mlines, mcuts, impl, mod, st, tag)
 
     cases = []
     for m in STATEFUL:
@@ -407,6 +437,63 @@ def main():
     if warm:
         run_batch(warm, 'warm')
 
+    # ---- LONG runs.  A quantity carried across a whole Run call outside the state vector (a counter, a budget, anything
+    # derived from the length of the call) only shows in calls far longer than 40 steps and, for Storage, only when the
+    # reservoir is STIFF (every daily step refined to ~60 s sub-steps).
+    # (1) Storage: long stiff reservoirs, whole vs split on the implementation, bit-identical; the whole run of the first
+    # one also on the extracted kernel (bit-exact, with its cumulative number of accepted sub-steps; runs concurrently)
+    t0 = _time.time()
+    limpl = run_filtered(owrun, llines, 'CRASH', env=GOENV)
+    long_storage = {'steps': lsteps, 'impl_seconds': round(_time.time() - t0, 2), 'cases': []}
+    th.join()
+    long_storage['model_seconds'] = kc.get('seconds')
+    for i, (cs, ks, line, res) in enumerate(zip(lcases, lcuts, llines, limpl)):
+        rs = split_results(res)
+        rec = {'design': cs['meta']['design'], 'steps': lsteps, 'cut_sets': ks, 'split_runs': 0, 'bit_identical': 0}
+        long_storage['cases'].append(rec)
+        rm = None
+        if i < nmodel:
+            t = kc['lines'][i].split(' ', 3)
+            if len(t) == 4 and t[0] == 'KC':
+                rec['cumulative_accepted_substeps_model'], rec['max_substeps_in_one_step'] = int(t[1]), int(t[2])
+                rm = parse_kresult(t[3])
+            else:
+                rm = parse_kresult(kc['lines'][i])
+        desc = dict(brief(cs), split_line=line[:200] + ' ... (rebuild from params / states / inputs)', long=True)
+        if rs is None or rs[0][0] != 'OK':
+            rec['whole_run'] = res[:80]
+            c.count(('long', cs['params'], cs['states'], lsteps), nontrivial=False)
+            if rm is not None and rm[0] == 'OK':
+                c.corr_broken.append({'model': 'Storage', 'diff': 'long whole run: impl %s, model OK' % res[:80], 'line': line[:500]})
+            continue
+        w = rs[0]
+        if rm is not None:
+            d = kresults_agree(w, rm)
+            rec['model_vs_code'] = d or 'bit-exact (whole run, full length)'
+            if d:
+                c.corr_broken.append({'model': 'Storage', 'diff': 'long run: ' + d, 'line': line[:500]})
+        for j, r in enumerate(rs[1:]):
+            c.count(('long', cs['params'], cs['states'], cs['inputs'][2][:50], ks[j]), nontrivial=nontrivial(w))
+            rec['split_runs'] += 1
+            d = kresults_agree(w, r)
+            if d is None:
+                rec['bit_identical'] += 1
+                continue
+            c.violation('split_long_Storage_%d_%d.json' % (i, j),
+                        dict(brief(cs), split_line=line, kind='split-mismatch-long-run', cuts=ks[j], steps=lsteps,
+                             difference=d.replace('impl=', 'whole=').replace('model=', 'split='), design=cs['meta']['design']))
+
+    # (2) one long run per other stateful model, whole vs split (middle, thirds, a 1-step segment, an empty segment), both sides
+    LN = 1000 if quick else 3000
+    long_stats = {}
+    glong = Gen(rng, LN, owrun)
+    lother = []
+    for m in STATEFUL:
+        if m != 'Storage':
+            lother += glong.cases(m, 1 if quick else 3)
+    Gen(rng, N, owrun)            # restore the series lengths patched into the borrowed generators
+    run_batch(lother, 'long', cutfn=long_cuts, st=long_stats)
+
     c.cov['rule'] = ('per stateful catalogue model (17): parameter vectors, initial states and 40-step input series from the generators '
                      'of the model\'s own check (C10/C11/C12/C13; rainfall-runoff models start from their own InitialiseStates and, in a '
                      'second batch, from final states the implementation returned); each case is run whole, 2-way split at every one of '
@@ -415,11 +502,16 @@ def main():
                      'the state array returned by the previous one (same object/array or fresh object/copied array, chosen per case), '
                      'through sim.Catalog (harness command SPLIT) and through the extracted Coq kernels (OCaml driver command SPLIT); '
                      'one evaluation = one (case, cut set) split run compared with the whole run; non-trivial = the whole run returned and '
-                     'has at least one non-zero output; distinct by (model, parameters, states, inputs, cut set)' % nmulti)
+                     'has at least one non-zero output; distinct by (model, parameters, states, inputs, cut set); plus LONG runs: three stiff '
+                     'Storage reservoirs (the long seasonal case of tools/c13.py, a spillway reservoir, a scaled/shifted variant; %d daily '
+                     'steps, hundreds to thousands of accepted sub-steps per step, cumulative count measured on the extracted kernel) and '
+                     'one %d-step run of every other stateful model, each compared whole vs split at the middle, at 1/3 + 2/3, at a 1-step '
+                     'segment and with an empty segment' % (nmulti, lsteps, LN))
     known_run = sum(s['known_finding_runs'] for s in stats.values())
     c.finish(extra_cov={'per_model': stats, 'series_length': N, 'cut_sets_per_case': N - 1 + nmulti + 6, 'cut_sets_with_empty_segments_per_case': 6,
                         'split_runs_with_empty_segments': sum(s.get('split_runs_with_empty_segments', 0) for s in stats.values()),
                         'storage_routing_tolerance_m3_per_cut': 2 * LIMIT,
+                        'long_storage_runs': long_storage, 'long_runs_per_model': long_stats, 'long_run_steps': LN,
                         'known_finding_split_runs': known_run, 'exhaustive': False,
                         'oracle': 'bit-identical outputs and final states (StorageRouting: 2*massBalanceLimit per cut; Sacramento '
                                   'with side != 0: 1e-9 relative, else the envelope measured on the implementation by moving the '
